@@ -140,6 +140,29 @@ def work_model(arg):
             out['nt'] += 1
             if abs(der - n) > tol * abs(n):
                 v('sp-derivative', f'p dpi/dp at p={p:.6g} is {der:.9g} but the loading is {n:.9g}', n, der)
+    # array queries: one value per pressure, equal to the scalar evaluations; the argument is left as it was
+    if ok.all() and name not in QUAD_MODELS:      # the quadrature-based models take one pressure at a time (an array is refused loudly)
+        for kind, arr in (('1-d', numpy.array(ps, dtype=float)), ('2 elements', numpy.array(ps[2:4], dtype=float)), ('0-d', numpy.array(ps[3])), ('list', list(ps))):
+            if kind == 'list' and name in QUAD_MODELS:
+                continue
+            keep = numpy.array(arr, dtype=float).copy()
+            o = core.call(m.spreading_pressure, arr)
+            out['ev'] += 1
+            if not o.ok:
+                if kind == 'list':
+                    continue        # plain lists are not part of the numeric interface of every model
+                v('sp-array', f'spreading_pressure({kind} array) {o.brief()} although the scalar evaluations return', None, o.brief(), {'shape': kind, 'kind': o.kind})
+                continue
+            out['nt'] += 1
+            want = sps if kind in ('1-d', 'list') else (sps[2:4] if kind == '2 elements' else sps[3])
+            got = numpy.asarray(o.value, dtype=float)
+            if got.shape != numpy.shape(want) and not (kind == '0-d' and got.size == 1):
+                v('sp-array', f'spreading_pressure({kind} array of {numpy.size(keep)} pressures) returned shape {got.shape}: {got if got.size < 4 else got[:3]}; expected one value per pressure',
+                  want, got, {'shape': kind})
+            elif core.relerr(got.reshape(-1), numpy.asarray(want, dtype=float).reshape(-1)) > (1e-7 if name in QUAD_MODELS else 1e-11):
+                v('sp-array', f'spreading_pressure({kind} array) = {got} differs from the scalar evaluations {want}', want, got, {'shape': kind})
+            if not numpy.array_equal(numpy.asarray(arr, dtype=float), keep):
+                v('sp-argument-modified', f'spreading_pressure changed the {kind} array passed to it', keep, arr, {'shape': kind})
     # in-place parameter change between two queries on the same model object
     key = [k for k in ('K', 'K1', 'Ka', 'e', 'C') if k in m.params][0]
     p = ps[3]
@@ -298,6 +321,28 @@ def work_modeliso(arg):
                     out['viol'].append(core.make_violation({'check': 'modeliso-sp-unit-argument', 'model': name},
                                                            f'ModelIsotherm[{name}].spreading_pressure_at({q:.6g}, {kw}) = {o.value if o.ok else o.brief()} but the model at the converted pressure gives {want.value}',
                                                            {'model': name, 'kwargs': kw}, want.value, o.value if o.ok else o.brief()))
+        # the same queries as ONE float64 array, twice: same values, and the caller's array is not touched
+        ps2 = numpy.array([0.1 * hi, 0.5 * hi])
+        want = core.call(m.spreading_pressure, ps2)
+        for kw, conv in ((dict(pressure_unit='kPa', pressure_mode='absolute'), ('absolute', 'kPa')), (dict(pressure_mode='relative%'), ('relative%', None))):
+            q = numpy.array(ru.c_pressure(ps2, U['pressure_mode'], U['pressure_unit'], conv[0], conv[1], c), dtype=float)
+            for q_arg, kind in ((q, '1-d float64'), (numpy.array(q[1]), '0-d float64')):
+                keep = q_arg.copy()
+                first = core.call(iso.spreading_pressure_at, q_arg, **kw)
+                second = core.call(iso.spreading_pressure_at, q_arg, **kw)
+                out['ev'] += 1
+                out['nt'] += 1
+                if not want.ok:
+                    continue
+                w_ = numpy.asarray(want.value, dtype=float).reshape(-1)
+                w_ = w_ if kind.startswith('1-d') else w_[1:]
+                bad1 = not first.ok or core.relerr(numpy.asarray(first.value, dtype=float).reshape(-1), w_) > 1e-8
+                bad2 = not second.ok or core.relerr(numpy.asarray(second.value, dtype=float).reshape(-1), w_) > 1e-8
+                if bad1 or bad2 or not numpy.array_equal(q_arg, keep):
+                    out['viol'].append(core.make_violation(
+                        {'check': 'modeliso-sp-array-argument', 'model': name, 'what': 'argument modified' if not numpy.array_equal(q_arg, keep) else ('first call' if bad1 else 'second call')},
+                        f'ModelIsotherm[{name}].spreading_pressure_at({kind} array {keep}, {kw}): first call {first.value if first.ok else first.brief()}, second call with the same array '
+                        f'{second.value if second.ok else second.brief()}, expected {w_}; array afterwards {q_arg}', {'model': name, 'kwargs': kw}, w_, None))
     return out
 
 
